@@ -18,6 +18,26 @@ pub fn run_sfs(bin: &str, args: &[String], stdin: &[u8]) -> Out {
     Out { code: out.status.code().unwrap_or(-1), stdout: out.stdout, stderr: String::from_utf8_lossy(&out.stderr).into_owned() }
 }
 
+/// like `run_sfs`, the input arriving on stdin in two pieces with a pause in between (the first `read` ends after `k` bytes)
+pub fn run_sfs_split(bin: &str, args: &[String], stdin: &[u8], k: usize) -> Out {
+    let mut child = Command::new(bin)
+        .args(args)
+        .env("SFS_ALLOW_STDIN", "1").env("RUST_BACKTRACE", "0")
+        .stdin(Stdio::piped()).stdout(Stdio::piped()).stderr(Stdio::piped())
+        .spawn().expect("spawn sfs");
+    let mut si = child.stdin.take().unwrap();
+    let data = stdin.to_vec(); let k = k.min(data.len());
+    let w = std::thread::spawn(move || {
+        std::thread::sleep(std::time::Duration::from_millis(40));
+        let _ = si.write_all(&data[..k]); let _ = si.flush();
+        std::thread::sleep(std::time::Duration::from_millis(120));
+        let _ = si.write_all(&data[k..]);
+    });
+    let out = child.wait_with_output().expect("wait sfs");
+    let _ = w.join();
+    Out { code: out.status.code().unwrap_or(-1), stdout: out.stdout, stderr: String::from_utf8_lossy(&out.stderr).into_owned() }
+}
+
 /// outcome class of a process: OK / ERR (diagnosed, exit != 0, no panic) / PANIC
 pub fn class(o: &Out) -> &'static str {
     if o.stderr.contains("panicked at") || o.code == 101 || o.code == -1 { "PANIC" } else if o.code == 0 { "OK" } else { "ERR" }
